@@ -24,7 +24,9 @@ def operand(rng, ints, kmax=3):
     return {"zk": 0, "z": rng.choice(ints)}
 
 
-def stmt(rng, ints, bools, profile="full"):
+def stmt(rng, ints, bools, profile="full", lhs=None):
+    """a random CrabIR statement; lhs = integer variables that may be written (default: all)"""
+    W = lhs if lhs is not None else ints
     kinds = ["assign"] * 4 + ["arith"] * 4 + ["assume"] * 5 + ["havoc", "select"]
     if profile != "linear":
         kinds += ["bitw"] * 2
@@ -32,17 +34,17 @@ def stmt(rng, ints, bools, profile="full"):
         kinds += ["bassign_cst", "bassign_var", "bop", "bassume", "bselect"]
     k = rng.choice(kinds)
     if k == "assign":
-        return {"op": "assign", "x": rng.choice(ints), "e": le(rng, ints)}
+        return {"op": "assign", "x": rng.choice(W), "e": le(rng, ints)}
     if k == "arith":
         fs = ["add", "sub", "mul", "add", "sub", "mul", "sdiv", "srem", "udiv", "urem"]
         if profile == "linear":
             fs = ["add", "sub", "mul"]
-        d = {"op": "arith", "f": rng.choice(fs), "x": rng.choice(ints), "y": rng.choice(ints)}
+        d = {"op": "arith", "f": rng.choice(fs), "x": rng.choice(W), "y": rng.choice(ints)}
         d.update(operand(rng, ints))
         return d
     if k == "bitw":
         f = rng.choice(["and", "or", "xor", "shl", "lshr", "ashr"])
-        d = {"op": "bitw", "f": f, "x": rng.choice(ints), "y": rng.choice(ints)}
+        d = {"op": "bitw", "f": f, "x": rng.choice(W), "y": rng.choice(ints)}
         d.update(operand(rng, ints, kmax=3))
         if f in ("shl", "lshr", "ashr") and d["zk"] == 1:
             d["z"] = abs(d["z"])
@@ -50,9 +52,9 @@ def stmt(rng, ints, bools, profile="full"):
     if k == "assume":
         return {"op": "assume", "c": cst(rng, ints)}
     if k == "havoc":
-        return {"op": "havoc", "x": rng.choice(ints + bools)}
+        return {"op": "havoc", "x": rng.choice(W + bools)}
     if k == "select":
-        return {"op": "select", "x": rng.choice(ints), "c": cst(rng, ints), "e1": le(rng, ints, maxterms=1),
+        return {"op": "select", "x": rng.choice(W), "c": cst(rng, ints), "e1": le(rng, ints, maxterms=1),
                 "e2": le(rng, ints, maxterms=1)}
     if k == "bassign_cst":
         return {"op": "bassign_cst", "x": rng.choice(bools), "c": cst(rng, ints)}
@@ -74,6 +76,9 @@ PROFILES = {
     "c04": {"w": [30, 5, 38, 2, 25],
             "lat": ["join", "join", "join", "meet", "meet", "meet", "copy", "top", "bottom", "widen"],
             "qry": ["leq", "leq", "leq", "isbot", "istop"]},
+    "c05": {"w": [40, 5, 45, 2, 8],
+            "lat": ["widen", "widen", "widenjoin", "widenjoin", "narrow", "narrow", "join", "copy"],
+            "qry": ["leq", "isbot"]},
     "c16": {"w": [35, 5, 30, 20, 10],
             "lat": ["copy", "copy", "copy", "join", "meet", "top", "bottom"],
             "qry": ["leq", "entails", "isbot", "istop"]},
@@ -138,6 +143,50 @@ def history(rng, hid, nints=3, nbools=1, nregs=3, length=10, profile="c03", stmt
             else:
                 steps.append({"op": k, "r": r})
     h = {"id": hid, "vars": vars_, "nregs": nregs, "steps": steps, "stutter": stutter}
+    if params:
+        h["params"] = params
+    return h
+
+
+def chain_history(rng, hid, n=40, params=None):
+    """C05: acc (register 1) is repeatedly widened with arbitrary further values built in register 2:
+         r2 := top; <a few statements>; r3 := r1 widen (r1 join r2) [with thresholds]; leq(r3, r1); r1 := r3
+    The leq steps carry "chain":1 : their answers tell when the chain is stationary."""
+    ints = [1, 2, 3]
+    vars_ = [{"n": "x", "t": "int"}, {"n": "y", "t": "int"}, {"n": "z", "t": "int"}, {"n": "b4", "t": "bool"}]
+    steps = []
+    ts = sorted(rng.sample(range(-20, 60), rng.randint(1, 4))) if rng.random() < 0.5 else None
+    grow = [rng.choice([1, 1, 2, 3, 7]) for _ in ints]
+    sign = [rng.choice([1, 1, -1]) for _ in ints]
+    rel = rng.random() < 0.7
+    # r1 := a bounded start value
+    for v in ints:
+        steps.append({"op": "stmt", "r": 1, "s": {"op": "assign", "x": v, "e": {"k": rng.randint(-2, 2), "t": []}}})
+    for i in range(1, n + 1):
+        steps.append({"op": "top", "r": 2, "inplace": 0})
+        for v in ints:
+            if rng.random() < 0.8:
+                c = sign[v - 1] * grow[v - 1] * i + rng.randint(-1, 1)
+                kind = rng.random()
+                if kind < 0.5:
+                    steps.append({"op": "stmt", "r": 2, "s": {"op": "assign", "x": v, "e": {"k": c, "t": []}}})
+                else:
+                    lo, hi = min(0, c), max(0, c)
+                    steps.append({"op": "stmt", "r": 2, "s": {"op": "assume", "c": {"e": {"k": -hi, "t": [[1, v]]}, "r": "le"}}})
+                    steps.append({"op": "stmt", "r": 2, "s": {"op": "assume", "c": {"e": {"k": lo, "t": [[-1, v]]}, "r": "le"}}})
+        if rel and rng.random() < 0.7:
+            a, b = rng.sample(ints, 2)
+            steps.append({"op": "stmt", "r": 2, "s": {"op": "assume", "c": {"e": {"k": -i * rng.choice([1, 2]), "t": [[1, a], [-1, b]]},
+                                                                       "r": rng.choice(["le", "eq"])}}})
+        if rng.random() < 0.15:
+            steps.append({"op": "stmt", "r": 2, "s": stmt(rng, ints, [4], "linear")})
+        w = {"op": "widenjoin", "r": 3, "a": 1, "b": 2}
+        if ts is not None:
+            w["ts"] = ts
+        steps.append(w)
+        steps.append({"op": "leq", "r": 0, "a": 3, "b": 1, "chain": 1})
+        steps.append({"op": "copy", "r": 1, "a": 3})
+    h = {"id": hid, "vars": vars_, "nregs": 3, "steps": steps, "stutter": 0, "chain": 1}
     if params:
         h["params"] = params
     return h
